@@ -2,6 +2,7 @@ package mon
 
 import (
 	"fmt"
+	"sort"
 
 	"github.com/brocaar/lorawan"
 
@@ -196,6 +197,59 @@ func runC02(c *core.Ctx) {
 			}
 			if ok2, e3 := libValidateMIC(phy, up, p); e3 != nil || !ok2 {
 				c.Violate("C02|validate-after-failed-set|"+dir, "after a failed Set on the same object (and the cause undone) Validate gives ok=%v err=%v", ok2, e3)
+			}
+		}
+		// plausible wrong MICs: what another form / version / direction / counter width of the specification
+		// gives for the same frame must not validate (unless it happens to be the right value)
+		if i%3 == 0 {
+			msg := d.Spec.Msg()
+			da, fc, ack := d.Spec.DevAddr, d.Spec.FCnt, d.Spec.ACK
+			forged := map[string][4]byte{"zero": {}}
+			add := func(n string, m [4]byte) { forged[n] = m }
+			if up {
+				add("other-version", spec.UplinkMIC(!p.v11, p.conf, p.txDR, p.txCh, p.fKey, p.sKey, ack, da, fc, msg))
+				add("keys-swapped", spec.UplinkMIC(p.v11, p.conf, p.txDR, p.txCh, p.sKey, p.fKey, ack, da, fc, msg))
+				add("ack-inverted", spec.UplinkMIC(p.v11, p.conf, p.txDR, p.txCh, p.fKey, p.sKey, !ack, da, fc, msg))
+				add("conf-zero", spec.UplinkMIC(p.v11, 0, p.txDR, p.txCh, p.fKey, p.sKey, ack, da, fc, msg))
+				add("tx-zero", spec.UplinkMIC(p.v11, p.conf, 0, 0, p.fKey, p.sKey, ack, da, fc, msg))
+				add("downlink-form", spec.DownlinkMIC(p.v11, p.conf, p.sKey, ack, da, fc, msg))
+				add("downlink-form-fkey", spec.DownlinkMIC(false, 0, p.fKey, ack, da, fc, msg))
+				add("fcnt-16bit", spec.UplinkMIC(p.v11, p.conf, p.txDR, p.txCh, p.fKey, p.sKey, ack, da, fc&0xffff, msg))
+				add("fcnt-plus-64k", spec.UplinkMIC(p.v11, p.conf, p.txDR, p.txCh, p.fKey, p.sKey, ack, da, fc+0x10000, msg))
+				add("fcnt-minus-64k", spec.UplinkMIC(p.v11, p.conf, p.txDR, p.txCh, p.fKey, p.sKey, ack, da, fc-0x10000, msg))
+				m11 := spec.UplinkMIC(true, p.conf, p.txDR, p.txCh, p.fKey, p.sKey, ack, da, fc, msg)
+				add("halves-swapped", [4]byte{m11[2], m11[3], m11[0], m11[1]})
+			} else {
+				add("other-version", spec.DownlinkMIC(!p.v11, p.conf, p.sKey, ack, da, fc, msg))
+				add("ack-inverted", spec.DownlinkMIC(p.v11, p.conf, p.sKey, !ack, da, fc, msg))
+				add("conf-zero", spec.DownlinkMIC(p.v11, 0, p.sKey, ack, da, fc, msg))
+				add("conf-forced", spec.DownlinkMIC(true, p.conf|1, p.sKey, true, da, fc, msg))
+				add("uplink-form", spec.UplinkMIC(false, 0, 0, 0, p.sKey, p.sKey, ack, da, fc, msg))
+				add("other-key", spec.DownlinkMIC(p.v11, p.conf, p.fKey, ack, da, fc, msg))
+				add("fcnt-16bit", spec.DownlinkMIC(p.v11, p.conf, p.sKey, ack, da, fc&0xffff, msg))
+				add("fcnt-plus-64k", spec.DownlinkMIC(p.v11, p.conf, p.sKey, ack, da, fc+0x10000, msg))
+				add("fcnt-minus-64k", spec.DownlinkMIC(p.v11, p.conf, p.sKey, ack, da, fc-0x10000, msg))
+			}
+			names := make([]string, 0, len(forged))
+			for n := range forged {
+				names = append(names, n)
+			}
+			sort.Strings(names)
+			for _, n := range names {
+				m := forged[n]
+				f2 := d.Lib()
+				f2.MIC = lorawan.MIC(m)
+				var got bool
+				var e2 error
+				c.Eval(1)
+				if pn, msg := core.Guard(func() { got, e2 = libValidateMIC(f2, up, p) }); pn || e2 != nil {
+					c.Violate("C02|validate-error|"+dir, "%v %s", e2, msg)
+					continue
+				}
+				if got != (m == want) {
+					c.Violate(fmt.Sprintf("C02|forged-mic|%s|%s|v11=%v|ack=%v|lib=%v", dir, n, p.v11, ack, got), "frame carrying the %s value %x (specification: %x): Validate=%v | fcnt=%#x conf=%#x", n, m, want, got, fc, p.conf)
+				}
+				c.Shape("forged", dir, n, p.v11, m == want)
 			}
 		}
 		// cmacF check
